@@ -290,6 +290,7 @@ def run(run: Run) -> None:
         us.append((n, f"n{n}:budget2", A.budget_game(n, 2), ("few", "dirty") if n == 7 else ("few",), 0.0))
         us.append((n, f"n{n}:star+convex", dict(A.larger_n_samples(n))["star+convex"], ("few",), 0.0))
     us.append((9, "n9:budget3", A.budget_game(9, 3), ("few",), 0.0))
+    us.append((9, "n9:convex-shift", A.shifted(A.convex_game(9), A.SHIFT_LONG[:9]), ("few",), 0.0))
     # four players, NOT superadditive, many exact ties (324 games x all 1024 knowledge sets)
     for i, g in enumerate(A.a4_any_sample()):
         if quick and i % 3 != seed % 3:
